@@ -53,17 +53,20 @@ Definition check_export (D : desc) (files : list str) (cls_export : N) (first : 
   match files_of D files with
   | None => false
   | Some fs =>
-      (match reflect D fs with
-       | Ok st =>
-           (* what the round-trip theorem assumes of a reflected set, checked on every case *)
-           keys_distinct st && set_importable st && set_closed st &&
-           match export_set st with
-           | Ok l => N.eqb cls_export 0 && same_map l first
-           | _ => false
-           end
-       | _ => false
-       end)
-      || (negb (N.eqb cls_export 0) && existsb (fun p => N.eqb cls_export (cls (reflect D p))) (orders fs))
+      (* vm_compute is call-by-value: branch explicitly so that the orders are only tried when needed *)
+      if match reflect D fs with
+         | Ok st =>
+             (* what the round-trip theorem assumes of a reflected set, checked on every case *)
+             keys_distinct st && set_importable st && set_closed st &&
+             match export_set st with
+             | Ok l => N.eqb cls_export 0 && same_map l first
+             | _ => false
+             end
+         | _ => false
+         end
+      then true
+      else if N.eqb cls_export 0 then false
+      else existsb (fun p => N.eqb cls_export (cls (reflect D p))) (orders fs)
   end.
 
 Definition exported (st : sset) : list (ref * root) :=
